@@ -845,6 +845,25 @@ func (x *exec) builtin(st *pstate, name string, cc *ssa.CallCommon, args []Val, 
 			c = smt.Not(c)
 		}
 		return smt.Ite(c, a, b)
+	case "clear":
+		if dt, ok := argTypes[0].Underlying().(*types.Slice); ok {
+			// every element of the slice becomes the zero value
+			et := dt.Elem()
+			d := x.toTerm(args[0])
+			doff, n := SlOff(d), SlLen(d)
+			if !x.c.C.Trusted {
+				x.frameCheckRange(st, target{ref: SlRef(d), lo: doff, hi: smt.BVAdd(doff, n), elem: et}, in, ".clear")
+			}
+			oldArr := x.env.Backing(st.heap, et, SlRef(d))
+			arr := x.env.Fresh("cleared", oldArr.Sort)
+			qcount++
+			k := smt.BVar("j!"+itoa(qcount), BV64)
+			inside := smt.And(smt.BVUle(doff, k), smt.BVUlt(k, smt.BVAdd(doff, n)))
+			st.assume(smt.Forall([]*smt.Term{k}, smt.Eq(smt.Select(arr, k),
+				smt.Ite(inside, x.p.T.Zero(et), smt.Select(oldArr, k)))), "clear: content")
+			x.env.SetBacking(st.heap, et, SlRef(d), arr)
+			return nil
+		}
 	case "delete":
 		x.mapDelete(st, args, argTypes, in)
 		return nil
